@@ -66,6 +66,14 @@ pub fn counts() -> [u32; NCB] {
     })
 }
 
+pub fn restore_counts(saved: [u32; NCB]) {
+    COUNTS.with(|c| {
+        for i in 0..NCB {
+            c[i].set(saved[i])
+        }
+    })
+}
+
 pub fn reset_counts() {
     COUNTS.with(|c| {
         for x in c.iter() {
